@@ -19,7 +19,9 @@ Definition run_bytes (lo hi : N) : list N :=
   map (fun k => lo + N.of_nat k) (seq 0 (N.to_nat (hi + 1 - lo))).
 
 Definition expand_runs (runs : list (N * N * N)) : list (N * nat) :=
-  flat_map (fun r => let '(lo, hi, q) := r in map (fun c => (c, N.to_nat q)) (run_bytes lo hi)) runs.
+  flat_map (fun r => let '(lo, hi, q) := r in
+                     let t := N.to_nat q in   (* one unary number per run, shared by its bytes *)
+                     map (fun c => (c, t)) (run_bytes lo hi)) runs.
 
 Definition tag_code (t : bool * N) : N := if fst t then 2 * snd t + 1 else 2 * snd t.
 
